@@ -474,8 +474,8 @@ _add(Prop(
                "dasp_signal::interpolate::Converter::next driving Sinc at ratio 1"],
     bounds="depth 1, 2, 3; ANY ring offset and any number (0..=depth+1) of pushed frames, i.e. every priming stage; frames "
            "f64 on the 2^-15 grid in [-1,1] ([i16;2] for the integer-format harness); index safety and reset at any x in "
-           "[0,1); tap/weight structure at x in {0, 0.25} with sin/cos replaced by power-of-two stand-ins, from the states reached "
-           "by 0, d, 2d+1 pushes (transparency: 0, 1, d, d+1, 2d+1 pushes) into a fresh ring (symbolic frame values); transparency at x = 0 "
+           "[0,1); tap/weight structure (depth 1 in the quick tier, depths 2 and 3 in the thorough tier: 400-700 s each) at x in {0, 0.25} "
+           "with sin/cos replaced by power-of-two stand-ins, from the states reached by 0, d, 2d+1 pushes (transparency: 0, 1, d, d+1, 2d+1 pushes) into a fresh ring (symbolic frame values); transparency at x = 0 "
            "(ratio exactly 1) with libm's sin/cos values tabulated at the kernel's concrete arguments, directly and through "
            "the Converter (depth+3 outputs)",
     outside="NOT decided: linearity within rounding, finiteness for finite input, the 1 % constant-reproduction clause for "
@@ -489,7 +489,7 @@ _add(Prop(
         # index safety runs over CBMC's own sin/cos models (any value in [-1,1] per call): sin(a)/a can then be
         # infinite for tiny a, so Kani's float NaN/overflow checks are switched off for these harnesses; rustc's own
         # `attempt to subtract with overflow` and bounds assertions - the subject - stay on
-        {"match": r"d3::taps_and_weights$", "flags": ["--no-overflow-checks"], "tier": "thorough", "timeout": 3000},
+        {"match": r"d[23]::taps_and_weights$", "flags": ["--no-overflow-checks"], "tier": "thorough", "timeout": 3000},
         {"match": r"::(index_safety|taps_and_weights)$", "flags": ["--no-overflow-checks"]},
     ],
     design_ref="DESIGN.md §4 C18",
